@@ -447,8 +447,12 @@ def run(chk):
                 ne = set()
                 for (val, pred, c, _t, br, pos) in Pth.facts:
                     rv = F.resolve(val)
-                    if isinstance(rv, ir.Inst) and rv.id == C.id and pred == "ne" and isinstance(c, int) and pos < Pth.insts.index(S):
+                    if not (isinstance(rv, ir.Inst) and rv.id == C.id and pos < Pth.insts.index(S)):
+                        continue
+                    if pred == "ne" and isinstance(c, int):
                         ne.add(c)
+                    elif pred == "switch-default" and isinstance(c, tuple):
+                        ne |= {x for x in c if isinstance(x, int)}       # the default edge: none of the case values
                 if not {0, 1} <= ne:
                     okfacts = False
             P("P5", okfacts and npaths >= 1, "the test suites / publication are reachable although the status check returned 0 or 1", obj="fips/self_tests.c", fn="isal_self_tests", construct="winner-only", loc=S.loc())
